@@ -96,7 +96,8 @@ def run_sort_case(job):
         write_text(gfa, gfa_text(variant))
         recs = rename(recs, variant)
         lines = [gaf_line(k + 1, r, pad) for k, r in enumerate(recs)]
-        gaf = os.path.join(d, "in.gaf" + (".gz" if in_storage == "bgzf" else ""))
+        # a BGZF file is recognised by its content: .gz, .bgz, or no suffix at all
+        gaf = os.path.join(d, "in.gaf" + ([".gz", ".bgz", ""][zlib.crc32(("sfx" + str(cid)).encode()) % 3] if in_storage == "bgzf" else ""))
         write_text(gaf, join_lines(lines, cid), in_storage, block=block)
         out = os.path.join(d, "out.gaf" + (".gz" if out_bgzip else ""))
         to_stdout = mode != "C10" and not out_bgzip and not outind and pad == 0 and len(recs) % 4 == 3
